@@ -208,7 +208,7 @@ Definition create (s : afs) (h : handle) (n : name) (k : kind) (content : bytes)
         else
           let o := with_content (new_obj k g di) (lenN content) (write_bytes ∅ 0 content) in
           ({| objs := <[i := o]> (<[di := with_ents d (<[n := i]> (o_ents d))]> (objs s));
-              issued := {[ (i, g) ]} ∪ issued s; unstable_opt := unstable_opt s |},
+              issued := gs_add (i, g) (issued s); unstable_opt := unstable_opt s |},
            RHandle hh (attrs_of i o))
       | None => (s, RStatus ERR)
       end
